@@ -188,7 +188,7 @@ impl FeelDate {
   ///
   pub fn ym_duration(&self, other: &FeelDate) -> FeelYearsAndMonthsDuration {
     let mut months;
-    if self.0 < other.0 {
+    if self.compare(other) == Ordering::Less {
       months = 12 * (other.0 as i64 - self.0 as i64) + (other.1 as i64 - self.1 as i64);
       if self.2 > other.2 {
         months -= 1;
